@@ -492,8 +492,8 @@ func c16LogProp(enc string, v *big.Rat, doc []byte, res *Result) {
 		cls = enc + "-" + unit + "-arrival-time-used"
 	case unit == "s" && !v.IsInt() && new(big.Int).SetUint64(got).Cmp(new(big.Int).Mul(c16RatFloor(v), big.NewInt(1000))) == 0:
 		cls = enc + "-fractional-seconds-truncated-to-whole-second"
-	case unit == "ns" && new(big.Int).SetUint64(got).Cmp(c16RatFloor(v)) == 0:
-		cls = enc + "-nanos-not-scaled"
+	case unit == "ns" && new(big.Int).SetUint64(got).Cmp(new(big.Int).Mul(want, big.NewInt(1000))) > 0:
+		cls = enc + "-nanos-not-scaled" // stored value is (about) the nanosecond count itself
 	}
 	res.Fails = append(res.Fails, PropFail{Sig: "time-unit/" + cls,
 		Msg: fmt.Sprintf("event time %s (%s, unit %s) = epoch ms %s, stored %d (%s)", v.FloatString(3), enc, unit, want, got, how)})
